@@ -2,7 +2,7 @@
 """C16 -- tag commands retry transient errors and fail only as TagCommandError."""
 import ast
 
-from ..model import norm, head, walk_no_nested, AnalysisError, FuncInfo, ClassInfo, enclosing_stmt, ancestors, live
+from ..model import norm, head, walk_no_nested, AnalysisError, FuncInfo, ClassInfo, enclosing_stmt, ancestors, live, last_live
 from ..cfg import cfg_of
 from ..resolve import Resolver, Ctx
 from ..escape import Escape, fmt_chain, items_sorted
@@ -284,17 +284,46 @@ def rule_retry(report, prog):
                                  '%s sends `%s` with retries=%s: the command is not repeated after a transient error although a repetition would be safe'
                                  % (fn.qname, norm(c), norm(kw['retries'])))
     report.floor('C16-R3 explicit retries', n_sites, 1)
+    # after the retry loop the response variable is bound on every path that gets there: every exit of the loop without a response
+    # goes through the error mapping (a `break` out of the handler would reach the response checks with nothing received)
+    from .c01 import unbound_uses
+    for q in ('nfc.tag.tt1.Type1Tag.transceive', 'nfc.tag.tt2.Type2Tag.transceive', 'nfc.tag.tt3.Type3Tag.send_cmd_recv_rsp'):
+        fn = prog.func(q)
+
+        def infeasible(cfg, fn=fn, q=q):
+            # the error mapping after the retry loop is total over what exchange() raises in reader mode (C16-R2): the last test of the
+            # chain cannot fail
+            if not report.stats.get('mapping_total', {}).get(q):
+                return []
+            out = []
+            for lp in walk_no_nested(fn.node):
+                if isinstance(lp, ast.For) and lp.orelse:
+                    last = last_live(lp.orelse)
+                    if isinstance(last, ast.If) and isinstance(last_live(last.body), ast.Raise) and not last.orelse:
+                        out += [(tn, 'false') for e, tn in cfg.test_nodes.items() if any(x is e for x in ast.walk(last.test)) or e is last.test]
+            return out
+        uses = unbound_uses(fn, infeasible)
+        seen = set()
+        for var, node, x in uses:
+            if (var, node.id) in seen:
+                continue
+            seen.add((var, node.id))
+            report.fail('C16-R3', key(q, 'response is bound on every path that evaluates it', var, enclosing_stmt(x) or x), fn.loc(x),
+                        '%s: `%s` can be read at `%s` without having been assigned: a path leaves the retry loop without a response and without '
+                        'raising the mapped TagCommandError (UnboundLocalError reaches the application)' % (q, var, norm(enclosing_stmt(x) or x)[:60]))
+        if not uses:
+            report.ok('C16-R3', key(q, 'every local is bound on every path before use'), fn.loc())
 
 
-def rule_activate(report, prog):
+def rule_activate(report, prog, rule='C16-R4'):
     f = prog.func('nfc.tag.activate')
     hs = {norm(h.type): [norm(s) for s in live(h.body)] for t in walk_no_nested(f.node) if isinstance(t, ast.Try) for h in t.handlers if h.type is not None}
-    report.check(hs == {'nfc.clf.CommunicationError': ['return None']}, 'C16-R4', key(f.qname, 'CommunicationError during activation -> None'), f.loc(),
+    report.check(hs == {'nfc.clf.CommunicationError': ['return None']}, rule, key(f.qname, 'CommunicationError during activation -> None'), f.loc(),
                  'activation boundary changed: %r' % hs)
     tr = [t for t in walk_no_nested(f.node) if isinstance(t, ast.Try)]
     acts = [c for c in ast.walk(f.node) if isinstance(c, ast.Call) and norm(c.func).startswith('activate_tt')]
     okk = len(tr) == 1 and acts and all(any(x is c for x in ast.walk(tr[0])) for c in acts)
-    report.check(okk, 'C16-R4', key(f.qname, 'every type specific activation is inside the try'), f.loc(), 'an activation call is outside the try')
+    report.check(okk, rule, key(f.qname, 'every type specific activation is inside the try'), f.loc(), 'an activation call is outside the try')
 
 
 def run(report, prog, tier):
